@@ -135,7 +135,7 @@ theorem create_takes_written_file_whole (kvs : List (Bytes × KVal)) (ts : List 
     ∃ d, decode file 0 none = .ok d ∧ ggufLayers file = some (.ok [⟨0, file.length, true, d⟩]) := by
   have h := OllamaVerif.Gguf.decode_encode kvs ts file align 0 hsorted hnodup hnoparam hwkv hwt hnk hnt halign hpos hoff henc hlen
   simp only [] at h
-  exact ⟨_, h, ggufLayers_single file none Guards.tree _ h rfl⟩
+  exact ⟨_, h, ggufLayers_single file none Guards.tree _ _ h rfl (by unfold two63 at *; omega)⟩
 
 /-- non-vacuity of `decode_encode`: two keys (one of them the alignment) and three tensors -/
 def kvEx : List (Bytes × KVal) := [(keyAlignment, .u32 32)]
